@@ -429,7 +429,11 @@ func (d *Datastore) TransactionSet(ctx context.Context, transactionId string, tr
 				break
 			}
 			log.Warnf("Transaction: %s - failed to create transaction, retrying: %v", transactionId, err)
+			// do not keep the datastore locked while waiting: the transaction that is in the way can only
+			// be confirmed or cancelled if TransactionConfirm / TransactionCancel get hold of the lock.
+			d.dmutex.Unlock()
 			time.Sleep(time.Millisecond * 200)
+			d.dmutex.Lock()
 		}
 		if transactionGuard != nil {
 			break
@@ -504,9 +508,9 @@ func cacheUpdateToSdcpbUpdate(lvs tree.LeafVariantSlice) ([]*sdcpb.Update, error
 func (d *Datastore) TransactionConfirm(ctx context.Context, transactionId string) error {
 	log.Infof("Transaction %s - Confirm", transactionId)
 
-	if !d.dmutex.TryLock() {
-		return ErrDatastoreLocked
-	}
+	// wait for the lock instead of giving up: the only one that can hold it while a transaction is open
+	// is a TransactionSet that waits for this very transaction to be resolved (it releases the lock while waiting).
+	d.dmutex.Lock()
 	defer d.dmutex.Unlock()
 	// everything remains as is
 	return d.transactionManager.Confirm(transactionId)
@@ -515,9 +519,9 @@ func (d *Datastore) TransactionConfirm(ctx context.Context, transactionId string
 func (d *Datastore) TransactionCancel(ctx context.Context, transactionId string) error {
 	log.Infof("Transaction %s - Cancel", transactionId)
 
-	if !d.dmutex.TryLock() {
-		return ErrDatastoreLocked
-	}
+	// wait for the lock instead of giving up: the only one that can hold it while a transaction is open
+	// is a TransactionSet that waits for this very transaction to be resolved (it releases the lock while waiting).
+	d.dmutex.Lock()
 	defer d.dmutex.Unlock()
 
 	return d.transactionManager.Cancel(ctx, transactionId)
